@@ -264,9 +264,11 @@ inductive VPc
   | collecting (keys : List (String × Nat)) (reads : List (String × UInt64 × List Nat))   -- value reads so far: location, value, the children it can be
 deriving Repr
 
-/-- one committed operation: the thread, the operation, what it returned -/
+/-- one committed operation: the thread, (ghost) the index of the call of that thread whose step
+    performed it, the operation, what it returned -/
 structure VLin where
   tid : Nat
+  idx : Nat
   op : VOp
   res : VRes
 
@@ -281,9 +283,9 @@ structure VSt where
 
 /-- the only way the machine touches the vector's content: perform one operation of the sequential
     specification and record it -/
-def vEff (s : VSt) (tid : Nat) (op : VOp) : VSt × VRes :=
+def vEff (s : VSt) (tid idx : Nat) (op : VOp) : VSt × VRes :=
   let r := s.spec.apply op
-  ({ s with spec := r.1, lin := s.lin ++ [⟨tid, op, r.2⟩] }, r.2)
+  ({ s with spec := r.1, lin := s.lin ++ [⟨tid, idx, op, r.2⟩] }, r.2)
 
 def sortKeys (l : List String) : List String := l.foldl (fun acc a => insertBy (fun x y => decide (x ≤ y)) a acc) []
   where insertBy (le : String → String → Bool) (a : String) : List String → List String
@@ -325,19 +327,19 @@ def vStep (s : VSt) (e : Ev) : Except String VSt :=
           -- a hit takes effect here (the lookup under the read lock); a miss has no effect yet
           match s.spec.lookup (key op) with
           | some _ =>
-            let (s1, r) := vEff s e.tid (.getOrCreate (key op))
+            let (s1, r) := vEff s e.tid th.idx (.getOrCreate (key op))
             .ok (setTh { s1 with lockR := e.tid :: s1.lockR } { th with pc := some (.rheld op (match r with | .child c => some c | _ => none)) })
           | none => .ok (setTh { s with lockR := e.tid :: s.lockR } { th with pc := some (.rheld op none) })
         else if n == "collect" then
           guard (e.k == "R" && e.loc == "lk") "collect: expected read lock" <|
           guard s.lockW.isNone "read lock granted while a writer holds the lock" <|
-          let (s1, r) := vEff s e.tid .keys
+          let (s1, r) := vEff s e.tid th.idx .keys
           let ks := match r with | .keys l => l | _ => []
           .ok (setTh { s1 with lockR := e.tid :: s1.lockR } { th with pc := some (.collecting ks []) })
         else if n == "rm" || n == "reset" then
           guard (e.k == "X" && e.loc == "lk") s!"{n}: expected write lock" <|
           guard (s.lockW.isNone && s.lockR.isEmpty) "write lock granted while the lock is held" <|
-          let (s1, r) := vEff s e.tid (if n == "reset" then .reset else .remove (key op))
+          let (s1, r) := vEff s e.tid th.idx (if n == "reset" then .reset else .remove (key op))
           let rv := match r with | .ok => "ok" | .err => "err" | _ => ""
           .ok (setTh { s1 with lockW := some e.tid } { th with pc := some (.wheld op rv) })
         else .error s!"unknown op {op}"
@@ -351,7 +353,7 @@ def vStep (s : VSt) (e : Ev) : Except String VSt :=
         guard (e.k == "X" && e.loc == "lk") "with: expected write lock after a miss" <|
         guard (s.lockW.isNone && s.lockR.isEmpty) "write lock granted while the lock is held" <|
         -- get-or-create under the write lock: the key is looked up AGAIN; a child is built and inserted only if still absent
-        let (s1, r) := vEff s e.tid (.getOrCreate (key op))
+        let (s1, r) := vEff s e.tid th.idx (.getOrCreate (key op))
         match r with
         | .child c => .ok (setTh (setHandle { s1 with lockW := some e.tid } e.tid c) { th with pc := some (.wheld op "h") })
         | _ => .error "internal: get-or-create returned no child"
@@ -364,10 +366,10 @@ def vStep (s : VSt) (e : Ev) : Except String VSt :=
         match s.binding.find? (·.1 == e.loc) with
         | some (_, c') =>
           guard (c' == c) s!"inc on {e.loc}, which is child {c'}, but the handle is child {c}" <|
-          .ok (setTh (vEff s e.tid (.inc c)).1 { th with pc := none, retv := some "" })
+          .ok (setTh (vEff s e.tid th.idx (.inc c)).1 { th with pc := none, retv := some "" })
         | none =>
           guard (!s.binding.any (·.2 == c)) s!"child {c} already lives at another location than {e.loc}" <|
-          let s1 := (vEff s e.tid (.inc c)).1
+          let s1 := (vEff s e.tid th.idx (.inc c)).1
           .ok (setTh { s1 with binding := (e.loc, c) :: s1.binding } { th with pc := none, retv := some "" })
       | .collecting ks reads =>
         let todo := ks.map (·.2)
